@@ -389,7 +389,14 @@ class C08(Spec):
                   "secondsCodec_refines", "grid_model_excluded_points", "float_leaf_excluded_points")) + tuple(
         "Earverif.FloatText." + t
         for t in ("rhe_nearest", "rhe_tie_even", "rhe_of_le_half", "rn53_nearest", "rn53_idem_pos", "core", "core_range",
-                  "roundtrip_master", "grid_core", "parseFloat_text", "parseFraction_numText"))
+                  "roundtrip_master", "grid_core", "parseFloat_text", "parseFraction_numText")) + (
+        # round 9: the float leaf composed with the document model (generic handler-table path, gain handlers,
+        # jumpPosition): Proofs/C08FloatDoc.lean
+        "Earverif.C08.C08_roundtrip_model_floats_partial", "Earverif.C08.C08_table_floatTexts_real") + tuple(
+        "Earverif.FloatDoc." + t
+        for t in ("realFloatText_dumpsNum", "realSecondsText_dumpsNum", "floatTexts_in_toXml", "floatRow_texts",
+                  "obj_floatTexts_real", "gainRow_texts", "jumpRow_texts", "obj_numTexts_real", "no_float_handleText",
+                  "float_rows_count"))
     trusted_base = (
         "models Earverif/Model/TimeFormat.lean, GenIds.lean, Chna.lean are hand transliterations of "
         "time_format.parse_time/unparse_time, generate_ids.generate_ids, AudioID.asByteArray and the row decoding in "
@@ -454,8 +461,14 @@ class C08(Spec):
         "decimal below 2^36 ~ 6.9e10 (k = 2^36*10^5 itself still satisfies the conclusion; first failing point "
         "k = 2^36*10^5 + 1, float_leaf_excluded_points: roundHalfEven(x*10^5) of the nearest double is ...00002); "
         "floatCodec_refines / secondsCodec_refines are ONE-LEAF bridges between the printable-grid model (Leaf.num k, "
-        "dumpsNum / loadsNum) and the real text / doubles / Fractions; they are not composed with the class and "
-        "document theorems, which are over Leaf.num (k : Int) with no bound on k and with loadsNum = inverse of "
+        "dumpsNum / loadsNum) and the real text / doubles / Fractions; C08_roundtrip_model_floats_partial composes them "
+        "with the document model under the decidable hypothesis NumsBounded (every Leaf.num k under a declarative "
+        "FloatType row of the element's regenerated parser table, every linear gain written by the five gain handlers: "
+        "|k| < 2^36*10^5 or the unwritten handler default; jumpPosition interpolationLength additionally 0 <= k) for the "
+        "generic handler-table path, the gain handlers and jumpPosition only — the Int fields of the other hand-written "
+        "structures (positions, bounds, channelLock, divergence, zones, positionOffset, frequency, screen centre / width, "
+        "interaction ranges) are not traversed; the class / document round-trip theorems themselves stay "
+        "over Leaf.num (k : Int) with no bound on k and with loadsNum = inverse of "
         "dumpsNum on its image only (not float(): 0.5, 1, 1e0 are outside; -0.00000 is read as 0): "
         "grid_model_excluded_points; -0.0 and gain = -1e-7 (written -0.00000) have no grid leaf and are recorded "
         "from the real code as excluded points; "
@@ -600,6 +613,9 @@ class C08(Spec):
         self._corr_handlers4(ctx, drv, rng, 40 if q else 1500)
         self._corr_classes(ctx, drv, rng, 8 if q else 150, 2 if q else 4)
         ctx.notes.append("correspondence seconds: round-4 handlers + class level %.1f" % (time.time() - t4))
+        t4 = time.time()
+        self._corr_float_doc(ctx, drv, rng, 10 if q else 120)
+        ctx.notes.append("correspondence seconds: float texts of adm_to_xml(document) %.1f" % (time.time() - t4))
         t5 = time.time()
         self._corr_refs(ctx, drv, rng, 45 if q else 1200)
         self._corr_transfer(ctx, drv, rng, 45 if q else 1200)
@@ -1267,6 +1283,100 @@ class C08(Spec):
                 self._hit_capped(ctx, "element is not a fixed point of its own parser / generator", {"class": nm, "tree": repr(t)[:3000]},
                         {"regenerated": repr(want)[:3000]}, ["c08-element-fixed-point-" + cls])
 
+    def _corr_float_doc(self, ctx, drv, rng, n_docs):
+        """document level tie of C08_roundtrip_model_floats_partial: in the REAL `adm_to_xml` output of generated
+        documents, every text written by a declarative FloatType row of the regenerated parser tables, by a hand-written
+        gain handler or as jumpPosition/interpolationLength is (a) the text the grid model writes (`dumpsNum k`) for the
+        grid value k of the real object's value, (b) `"{:.5f}".format(k / 100000.0)` (resp. `"{:07.5f}"` of the Fraction),
+        and (c) what the Lean float-text model prints for that double / reads back as that double (`ff` / `fp` / `sd` /
+        `sl` of the driver).  Values outside NumsBounded (off the 1e-5 grid, |k| >= 2^36*10^5, -0.0) are counted and
+        skipped: the theorem says nothing about them."""
+        import lxml.etree as ET
+        from ear.fileio.adm import xml as X
+        from ear.fileio.adm.elements.version import BS2076Version
+
+        ft, st = flt.real_converters()
+        table = {nm: (p, parser_rows(p)) for nm, p in real_parsers()}
+        doc_list = [("directed", k, v) for v in (1, 2) for k in range(directed.N_DOCS)]
+        doc_list += [("random", rng.randrange(10 ** 9), 1 + (i % 2)) for i in range(n_docs)]
+        sites = []
+        for dkind, dseed, version in doc_list:
+            dsize = 0 if dkind == "directed" else rng.choice([1, 2, 3])
+            dinp = {"generator": "harness.c08_directed.make_directed_doc" if dkind == "directed" else "harness.c08_docs.make_doc",
+                    "doc_seed": dseed, "version": version, "size": dsize}
+            try:
+                if dkind == "directed":
+                    adm, _ = directed.make_directed_doc(dseed, version)
+                else:
+                    adm, _ = docs.make_doc(dseed, version, dsize)
+            except Exception as e:
+                self._raises(ctx, "make_doc/generate_ids", dinp, e)
+                continue
+            with warnings.catch_warnings():
+                warnings.simplefilter("ignore")
+                try:
+                    root = ET.fromstring(refs.axml_of(adm))
+                except Exception as e:
+                    self._raises(ctx, "adm_to_xml", dinp, e)
+                    continue
+            h = X.MainElementHandler(BS2076Version(version))
+            for me in h.main_elements:
+                nm = "v%d/%s" % (version, me.name)
+                idattr = [r[1] for r in table[nm][1] if r[0] == "Attribute" and r[2] == "id"]
+                if not idattr:
+                    continue
+                by_id = {el.id: el for el in me.get_func(adm) if not el.is_common_definition}
+                for xe in root.iter():
+                    if flt._local(xe) != me.name or xe.get(idattr[0]) not in by_id:
+                        continue
+                    out = []
+                    try:
+                        ok = flt.float_sites(xe, by_id[xe.get(idattr[0])], nm, table, version, out)
+                    except Exception as e:
+                        ok = False
+                        ctx.count("corr:float-doc:walk-raises:" + type(e).__name__)
+                    if not ok:
+                        ctx.count("corr:float-doc:xml-and-object-do-not-line-up")
+                    for path, kind, vals, texts in out:
+                        sites.append((dinp, xe.get(idattr[0]), path, kind, vals, texts))
+        lines, checks = [], []
+        for dinp, eid, path, kind, vals, texts in sites:
+            cls = path.split("/")[-1]
+            if len(texts) > len(vals):
+                ctx.disagree("float text in adm_to_xml output without a value in the object",
+                             dict(dinp, element=eid, site=path), repr(vals), repr(texts))
+                continue
+            if len(texts) < len(vals):
+                # elided: the handler default / gain 1.0 / no jumpPosition flag (nothing written, nothing to compare)
+                ctx.count("corr:float-doc:elided:" + cls, len(vals) - len(texts))
+                if texts:
+                    continue
+            for x, t in zip(vals, texts):
+                exp = flt.site_expectation(kind, x)
+                if exp is None:
+                    ctx.count("corr:float-doc:outside-NumsBounded:" + cls)
+                    continue
+                k, model_text, fmt_text = exp
+                ctx.count("corr:float-doc:%s:%s%s" % (kind, cls, ":negative" if k < 0 else ""))
+                ctx.case(("fdoc", path, k), True, sample={"site": path, "value": repr(x), "k": k, "text": t})
+                if not (t == model_text == fmt_text):
+                    ctx.disagree("float text of adm_to_xml(document) vs dumpsNum of the grid value / the format string",
+                                 dict(dinp, element=eid, site=path, value=repr(x), k=k),
+                                 {"dumpsNum": model_text, "format": fmt_text}, t)
+                    continue
+                ctx.validated()
+                if kind == "seconds":
+                    lines += ["sd %d 100000" % k, "sl " + flt.cps(t)]
+                    checks += [("secondsDumps", t, t), ("parseFraction", t, flt.real_seconds_loads(st, t))]
+                else:
+                    lines += ["ff " + flt.bits(k / 100000.0), "fp " + flt.cps(t)]
+                    checks += [("fmt5", t, t), ("parseFloat", t, flt.real_float_loads(ft, t))]
+        for (what, t, want), m in zip(checks, drv.run(lines) if lines else []):
+            if m != want:
+                ctx.disagree("Earverif.FloatText.%s on a float text of adm_to_xml(document)" % what, {"text": t}, m, want)
+            else:
+                ctx.validated()
+
     # ---- round 5: id map, reference resolution, CHNA <-> audioTrackUID transfer --------------------
     def _corr_refs(self, ctx, drv, rng, n):
         """real `ADM` (addAudio… of the elements xml.py parsed, IDRef attributes pending, a subset of private copies of
@@ -1797,15 +1907,38 @@ REGISTRY = dict(
     "maps it back to that double (|k|/10^5 < 2^36); secondsCodec_refines — ONE LEAF: jumpPosition "
     "interpolationLength is modelled with dumpsNum / loadsNum while the real code is SecondsType: for 0 <= k, "
     "k/10^5 < 2^36, '{:07.5f}'.format(float(Fraction(k, 10^5))) is exactly dumpsNum k and Fraction() of that text is "
-    "exactly k/10^5. These two bridges are NOT composed with the class / document theorems: C08_roundtrip_model and "
-    "every class theorem are statements over Leaf.num (k : Int) with NO bound on k in Valid / DocValid and with "
+    "exactly k/10^5. C08_roundtrip_model_floats_partial (Proofs/C08FloatDoc.lean) COMPOSES the two bridges with the "
+    "document model along the generic handler-table path: for a DocValid document satisfying the decidable NumsBounded "
+    "(docElems = every main element, loudnessMetadata, reference screen, audioObjectInteraction, alternativeValueSet, "
+    "block format of the five types and Matrix coefficient, each with the rows of its REGENERATED parser table; every "
+    "Leaf.num k under a declarative FloatType row and every linear gain written by the five hand-written gain handlers "
+    "has |k| < 2^36*10^5 or is the unwritten handler default; every jumpPosition interpolationLength also 0 <= k): "
+    "(1) every text written by a declarative FloatType row (Attribute / AttrElement / ListElement; these texts are "
+    "attribute values / child texts of toXml: floatTexts_in_toXml; no HandleText row is a FloatType: "
+    "no_float_handleText, kernel-decided on the regenerated table; >= 30 such rows: float_rows_count) is fmt5 of the "
+    "double nearest to a grid number stored in the object = the real FloatType.dumps text, parseFloat of it is that "
+    "double and printing again gives the same text (RealFloatText); (2) the same for every gain text of the gain "
+    "element / optional gain / gain attribute handlers; (3) every interpolationLength text is secondsDumps of the "
+    "stored Fraction, parseFraction reads it back exactly and writing again gives the same text (RealSecondsText); and "
+    "the conclusion of C08_roundtrip_model. C08_table_floatTexts_real is the class-level form for ANY parser of the "
+    "regenerated table, any hand-written implementations and any object. NOT traversed (numbers are Int fields of "
+    "hand-written structures written with dumpsNum directly; apply floatCodec_refines leaf by leaf): Objects position "
+    "and DirectSpeakers position with bounds, channelLock maxDistance, objectDivergence, zoneExclusion, positionOffset, "
+    "frequency, reference-screen centre position / width, gain / position interaction ranges; a dB gain is symbolic; "
+    "that a nested element's XML is a descendant of its main element's XML is by definition of the list / single "
+    "handlers and not restated. Tie: _corr_float_doc walks the REAL adm_to_xml output of generated and directed "
+    "documents together with the real objects along the regenerated parser tables and asserts that every such text "
+    "equals dumpsNum k = '{:.5f}'.format(k/100000.0) (resp. '{:07.5f}') for the grid value k of the object's value, and "
+    "that the Lean fmt5 / parseFloat / secondsDumps / parseFraction agree with the real converters on these texts. "
+    "The class / document round-trip theorems themselves remain "
+    "statements over Leaf.num (k : Int) with NO bound on k in Valid / DocValid and with "
     "loadsNum, the inverse of dumpsNum on its image only (not float()); grid_model_excluded_points (kernel-checked) "
     "lists what the grid model cannot express or gets differently: the text -0.00000 (written for -0.0 and for "
     "gain = -1e-7; float() keeps -0.0, the model reads 0, and no Leaf.num k prints it), the spellings 0.5 / 1 / 1e0 "
     "(none for loadsNum), and the leaf 2^36*10^5 + 1, which the class theorems cover although '{:.5f}' of the nearest "
     "double prints something else. NOT proved, only searched: the composition 'every float text of to_xml(document) "
-    "is fmt5 of a double and is read back as that double' (the leaf theorems applied at every num leaf of the "
-    "hand-written handlers), lxml and the byte level of AXML (the tree is abstract), "
+    "is fmt5 of a double and is read back as that double' for the hand-written handlers listed above (proved for the "
+    "declarative FloatType rows, the gain handlers and jumpPosition), lxml and the byte level of AXML (the tree is abstract), "
     "attrs validators, documents with floats OFF the 1e-5 grid as a whole (leaf text is a fixed point, but a value "
     "that prints like a default, e.g. width 1e-7, is written once and elided by the second generation: recorded as "
     "excluded point) — covered by generated documents over every element class and optional attribute for both "
